@@ -3,13 +3,19 @@ package c20
 
 import (
 	"archive/tar"
+	"bytes"
 	"fmt"
+	"os"
+	"path/filepath"
 	"testing"
 
+	slug "github.com/hashicorp/go-slug"
 	"pgregory.net/rapid"
 
 	"verif/lib/ev"
+	"verif/lib/fsx"
 	"verif/lib/packcase"
+	"verif/lib/tarx"
 	"verif/lib/tgen"
 )
 
@@ -74,6 +80,114 @@ func checkMeta(c packcase.Case) error {
 		return fmt.Errorf("Meta.Size = %d, content bytes stored = %d, sum of header sizes = %d", run.Meta.Size, bodySum, hdrSum)
 	}
 	return nil
+}
+
+// ---------------------------------------------------------------------------
+// A file of the tree shrinks while Pack is copying it (the writer handed to
+// Pack truncates it once output starts to arrive). Pack may fail; if it
+// succeeds, the Meta still has to describe the slug that was written.
+
+type ShrinkCase struct {
+	BigKiB int  `json:"big_kib"` // size of the file that shrinks
+	KeepB  int  `json:"keep_b"`  // bytes it keeps
+	AfterB int  `json:"after_b"` // output bytes after which the truncation happens
+	Before bool `json:"before"`  // a small file sorts before the big one
+	AfterF bool `json:"after_f"` // a small file sorts after it
+	Grow   bool `json:"grow"`    // the file grows instead (appended to)
+}
+
+type shrinkWriter struct {
+	buf   bytes.Buffer
+	after int
+	fire  func()
+	done  bool
+}
+
+func (w *shrinkWriter) Write(p []byte) (int, error) {
+	w.buf.Write(p)
+	if !w.done && w.buf.Len() >= w.after {
+		w.done = true
+		w.fire()
+	}
+	return len(p), nil
+}
+
+var subShrink = ev.Register("shrinking", func(c ShrinkCase) error {
+	r, cleanup := fsx.Scratch("c20s-")
+	defer cleanup()
+	src := filepath.Join(r, "src")
+	os.MkdirAll(src, 0755)
+	// incompressible content, so that compressed output arrives while the file is being read
+	content := make([]byte, c.BigKiB*1024)
+	x := uint32(2463534242)
+	for i := range content {
+		x ^= x << 13
+		x ^= x >> 17
+		x ^= x << 5
+		content[i] = byte(x)
+	}
+	big := filepath.Join(src, "m-big.bin")
+	os.WriteFile(big, content, 0644)
+	if c.Before {
+		os.WriteFile(filepath.Join(src, "a-small.txt"), []byte("IN:before"), 0644)
+	}
+	if c.AfterF {
+		os.WriteFile(filepath.Join(src, "z-small.txt"), []byte("IN:after"), 0644)
+	}
+	w := &shrinkWriter{after: c.AfterB, fire: func() {
+		if c.Grow {
+			f, err := os.OpenFile(big, os.O_APPEND|os.O_WRONLY, 0)
+			if err == nil {
+				f.Write(content[:4096])
+				f.Close()
+			}
+			return
+		}
+		os.Truncate(big, int64(c.KeepB))
+	}}
+	meta, perr, panicked := func() (m *slug.Meta, err error, pan any) {
+		defer func() { pan = recover() }()
+		m, err = slug.Pack(src, w, false)
+		return
+	}()
+	if panicked != nil {
+		return fmt.Errorf("Pack panicked: %v", panicked)
+	}
+	ev.NonTrivial(c, "file-changes-during-pack")
+	if perr != nil {
+		ev.Label("pack-error")
+		return nil
+	}
+	ev.Label("pack-ok")
+	entries, derr := tarx.Decode(w.buf.Bytes())
+	if derr != nil {
+		return fmt.Errorf("Pack returned nil but the slug does not decode: %v", derr)
+	}
+	if meta == nil || len(meta.Files) != len(entries) {
+		return fmt.Errorf("Meta.Files vs slug entries: %v vs %d entries", meta, len(entries))
+	}
+	var hdrSum, bodySum int64
+	for i, e := range entries {
+		if meta.Files[i] != e.Name {
+			return fmt.Errorf("Meta.Files[%d] = %q but entry %d of the slug is %q", i, meta.Files[i], i, e.Name)
+		}
+		if e.Typeflag == tar.TypeReg {
+			hdrSum += e.Size
+			bodySum += e.BodyLen
+		}
+	}
+	if meta.Size != bodySum || meta.Size != hdrSum {
+		return fmt.Errorf("a file changed size while being packed and Pack returned nil: Meta.Size = %d, content bytes stored = %d, sum of header sizes = %d", meta.Size, bodySum, hdrSum)
+	}
+	return nil
+})
+
+func TestPropShrink(t *testing.T) {
+	ev.Check(t, subShrink, func(t *rapid.T) ShrinkCase {
+		return ShrinkCase{BigKiB: rapid.SampledFrom([]int{40, 100, 300}).Draw(t, "big"), KeepB: rapid.SampledFrom([]int{0, 10, 5000, 33000}).Draw(t, "keep"),
+			AfterB: rapid.SampledFrom([]int{1, 11, 20000, 60000}).Draw(t, "after"), Before: rapid.Bool().Draw(t, "before"), AfterF: rapid.Bool().Draw(t, "afterf"),
+			Grow: rapid.IntRange(0, 4).Draw(t, "grow") == 0}
+	})
 }
 
 func names(run *packcase.Run) []string {
